@@ -469,6 +469,18 @@ class Counters(EngineBase):
                             "ev": {"ev": "proc_tick", "pid": rng.choice(pids),
                                    "utime": rng.randrange(0, 200),
                                    "stime": rng.randrange(0, 200)}})
+                if op["op"] in ("cpu_percent", "cpu_times_percent") and \
+                        rng.random() < 0.2:
+                    # a signal handler interrupts the sleep and takes a
+                    # (non-blocking) measurement of its own on this thread
+                    same = rng.random() < 0.7
+                    op["during"].append({
+                        "frac": rng.choice([0.3, 0.5, 0.8]),
+                        "ev": {"ev": "hook", "name": "reenter",
+                               "call": op["op"] if same else rng.choice(
+                                   ["cpu_percent", "cpu_times_percent"]),
+                               "percpu": op["percpu"] if same else
+                               rng.random() < 0.5}})
             ops.append(op)
         for j, op in enumerate(ops):
             op["id"] = j
@@ -526,6 +538,24 @@ class Counters(EngineBase):
         k.end_op()
         proc_last = {}
         ncpu = k.ncpu_online
+
+        def reenter(ev):
+            # runs inside time.sleep() of the blocking call, same thread
+            a = len(k.statreads)
+            try:
+                getattr(psutil, ev["call"])(interval=None,
+                                            percpu=ev["percpu"])
+            except BaseException as e:  # noqa: BLE001
+                if is_harness_exc(e):
+                    raise
+                return
+            mine = k.statreads[a:]
+            if mine:
+                last[(ev["call"], ev["percpu"])][k.cur_thread] = mine[-1][2]
+            probes["reentrant_call_during_sleep"] = probes.get(
+                "reentrant_call_during_sleep", 0) + 1
+
+        k.hooks = {"reenter": reenter}
 
         def pct_expect(t1, t2):
             d = self._deltas(t1, t2, nf)
